@@ -15,9 +15,13 @@ def run(fb, rep, tier, cfg):
         "the skolems it may bind are recorded by a deep traversal of the scrutinee type that dominates the refining unification, and "
         "every match alternative resets what it recorded before the next alternative or the return. R2h: compiler_pipeline::run_io (which "
         "replaces an IO action by its result and rewrites the type) is called only by top-level executables, never by the function that "
-        "stores an evaluated module for importers, who are typed against the module's checked type.")
+        "stores an evaluated module for importers, who are typed against the module's checked type. R2i: visitors that collect pattern binders "
+        "override every identifier hook ast::walk_pattern uses. R2j: the record-literal shortcut that skips the check against the expected type "
+        "compares value-field names in order.")
     rep.assumptions += ["only operators spelled `#<alphabetic type name><symbol>` are considered"]
     e11.r11b(fb, rep)
     from . import r2g
     r2g.run(fb, rep)
     r2g.r2h(fb, rep)
+    r2g.r2i(fb, rep)
+    r2g.r2j(fb, rep)
